@@ -1,17 +1,30 @@
 import importlib.util, os
 _p = os.path.join(os.path.dirname(os.path.dirname(os.path.abspath(__file__))), "C07", "plan.py")
 _s = importlib.util.spec_from_file_location("plan_C07_for_C12", _p); _m = importlib.util.module_from_spec(_s); _s.loader.exec_module(_m)
+_p1 = os.path.join(os.path.dirname(os.path.dirname(os.path.abspath(__file__))), "C01", "plan.py")
+_s1 = importlib.util.spec_from_file_location("plan_C01_for_C12", _p1); _m1 = importlib.util.module_from_spec(_s1); _s1.loader.exec_module(_m1)
 PLAN = dict(
     id="C12", api_files=['tracing-subscriber/src/reload.rs'], level="other", explanation="Handle::modify / reload: a handle whose layer is gone returns the CollectorGone error, runs nothing and rebuilds nothing; otherwise the closure runs exactly once under the write lock, the lock is RELEASED before callsite::rebuild_interest_cache is called, that function is called exactly once and already sees the new value; afterwards every callback of the reloadable layer / filter (max_level_hint, register_callsite, enabled, event_enabled, callsite_enabled, on_event) is FORWARDED to the new value - each reaches it exactly once and the old value never, for layers whose static interest, dynamic verdict and hint are independent - for all old/new values; the log crate's max level is republished once, after the rebuild. rebuild_interest_cache itself is replaced by a recording stub here; its contract (re-establishes the cache invariant from arbitrary cached bytes) is C01's. Interleavings with emissions on other threads are not decided. Added after seed C12-3: the span-lifecycle callbacks of a reloadable per-layer filter reach exactly their namesake of the NEW value once.",
-    functions_under_contract=['reload.rs: impl Filter for reload::Subscriber - on_new_span / on_enter / on_exit / on_close / on_record each forwarded to its namesake of the current value', 'tracing-subscriber/src/reload.rs: Handle::{modify,reload,clone_current,with_current}, impl Subscribe / Filter for reload::Subscriber (read lock per callback)'],
+    functions_under_contract=['tracing-core/src/callsite.rs: inner::rebuild_interest (the two C01 harnesses on it, bounded: 2 registrars, one callsite, every old max level) - every registered callsite re-evaluated whatever the old max level, max level of the live collectors published', 'reload.rs: impl Filter for reload::Subscriber - on_new_span / on_enter / on_exit / on_close / on_record each forwarded to its namesake of the current value', 'tracing-subscriber/src/reload.rs: Handle::{modify,reload,clone_current,with_current}, impl Subscribe / Filter for reload::Subscriber (read lock per callback)'],
     trusted_base=['tracing_log::log::set_max_level replaced by a recording stub (called once, after the rebuild): the real one writes a static that Kani 0.68 aliases with the constant LevelFilter::TRACE', "Kani 0.68 / CBMC 6.11 / CaDiCaL; Kani's std build (nightly-2026-08-21), not the repo toolchain's", 'core::fmt::Formatter::pad stubbed to Ok(()) with -Z stubbing (panic-message formatting on infeasible error branches; no harness that uses it reads formatted text)', 'cfg(kani) thread_local! shim and once_cell::sync::Lazy contract stub (see overlay_additions)', 'tracing_core::callsite::rebuild_interest_cache stubbed by a recording function (its contract is discharged under C01)'],
-    assumptions=['RwLock exclusion: a callback evaluates entirely under one read guard, hence entirely old or entirely new (std)', "composition with C01: after rebuild_interest the cached interest of every registered callsite and MAX_LEVEL are those of the live collectors' CURRENT answers"],
+    assumptions=['RwLock exclusion: a callback evaluates entirely under one read guard, hence entirely old or entirely new (std)', "composition with C01 (its two rebuild_interest harnesses are run by this check too; the rest of C01 - the macro guard reading the cache - is C01's): after rebuild_interest the cached interest of every registered callsite and MAX_LEVEL are those of the live collectors' CURRENT answers"],
     not_covered=['an emission racing with the reload (interleavings)', 'end-to-end run through the real global registry (too expensive for CBMC, see C01)'],
     kani=[dict(
         crate="tracing-subscriber", tls_shim_crates=["tracing-core", "tracing-subscriber"], once_cell_stub=True,
         modules=[dict(name="__verif_c12", attach="inline", file="tracing-subscriber/src/reload.rs", modpath="reload",
                       files=["../common/sub_prelude.rs", "reload.kani.rs"])],
         append=_m.SUB_APPENDS,
+    ), dict(
+        # the rebuild contract C12 composes with (C01's harnesses on the real tracing-core rebuild_interest, run here too so
+        # that this check does not rest on another property's check having been run): every registered callsite is
+        # re-evaluated whatever the OLD max level was, and the max level of the live collectors is published
+        crate="tracing-core", tls_shim=True, once_cell_stub=True, tag="core-rebuild",
+        only_harnesses=["c01_rebuild_interest_reevaluates_the_callsite_whatever_the_old_max_level_bounded",
+                        "c01_rebuild_interest_prunes_and_publishes_max_level_bounded"],
+        modules=[dict(name="__verif_c01", attach="inline", file="tracing-core/src/callsite.rs", inside_mod="inner",
+                      modpath="callsite::inner", files=["../common/core_prelude.rs", "../common/core_stub.rs", "../C01/core_cache.kani.rs"])],
+        append=[dict(file="tracing-core/src/dispatch.rs", text=_m1.DISPATCH_HELPER, kind="cfg(kani) constructor helper"),
+                dict(file="tracing-core/src/callsite.rs", text=_m1.REG_HELPER, kind="cfg(kani) accessor helper")],
     )],
     manifest=dict(technique="ordering/value contracts of Handle::modify on the real reload.rs with the cache rebuild stubbed by a recorder (Kani, loop-free), composed with C01's rebuild contract",
         text="Sequential part only: gone-handle error, mutate-once / unlock-before-rebuild / rebuild-once ordering, and new-value visibility to every callback are proved for all values; 'every thread' and racing emissions rest on RwLock exclusion and C01's cache contract (assumed composition), hence `other`.",
